@@ -27,8 +27,10 @@ import (
 	"testing"
 
 	corev1 "k8s.io/api/core/v1"
+	apierrors "k8s.io/apimachinery/pkg/api/errors"
 	"k8s.io/apimachinery/pkg/api/resource"
 	metav1 "k8s.io/apimachinery/pkg/apis/meta/v1"
+	"k8s.io/apimachinery/pkg/runtime/schema"
 	"k8s.io/apimachinery/pkg/util/intstr"
 	"k8s.io/client-go/kubernetes/scheme"
 	"k8s.io/client-go/tools/record"
@@ -36,7 +38,6 @@ import (
 	"k8s.io/klog/v2"
 	"pgregory.net/rapid"
 	"sigs.k8s.io/controller-runtime/pkg/client"
-	"sigs.k8s.io/controller-runtime/pkg/client/fake"
 	"sigs.k8s.io/controller-runtime/pkg/event"
 	"sigs.k8s.io/controller-runtime/pkg/reconcile"
 
@@ -521,7 +522,7 @@ var (
 func c20GenLabels(t *rapid.T, label string, pPercent int) map[string]string {
 	out := map[string]string{}
 	for _, k := range c20LabelKeys {
-		if rapid.IntRange(0, 99).Draw(t, label+"Has"+k) < pPercent {
+		if rapid.IntRange(0, 99).Draw(t, label+"Has"+k) >= 100-pPercent {
 			out[k] = rapid.SampledFrom(c20LabelVals).Draw(t, label+"Val"+k)
 		}
 	}
@@ -533,7 +534,7 @@ func c20GenLabels(t *rapid.T, label string, pPercent int) map[string]string {
 func c20GenSelector(t *rapid.T, hint map[string]string) (bool, any, string) {
 	hintKeys := vk.SortedKeys(hint)
 	shape := rapid.SampledFrom([]string{"labels", "labels", "labels", "labels", "labels", "expr", "expr", "expr", "both", "empty", "nil", "absent", "invalid", "invalid"}).Draw(t, "selShape")
-	useHint := len(hintKeys) > 0 && rapid.IntRange(0, 9).Draw(t, "selFromNode") < 6
+	useHint := len(hintKeys) > 0 && rapid.IntRange(0, 9).Draw(t, "selFromNode") < 8
 	pair := func() (string, string) {
 		if useHint {
 			k := rapid.SampledFrom(hintKeys).Draw(t, "selKey")
@@ -700,13 +701,13 @@ func c20GenScalar(t *rapid.T, n *c20Schema, fl *c20Flags) any {
 		return rapid.Bool().Draw(t, "b")
 	case c20KInt:
 		switch rapid.IntRange(0, 9).Draw(t, "intKind") {
-		case 0:
+		case 9:
 			fl.outOfRange = true
 			if n.bits == 32 {
 				return c20Num(int64(rapid.SampledFrom([]int32{-2147483648, 2147483647, -1, 100000}).Draw(t, "i32")))
 			}
 			return c20Num(rapid.SampledFrom([]int64{-9223372036854775808, 9223372036854775807, 9007199254740993, -7, 101, 100000}).Draw(t, "i64"))
-		case 1, 2:
+		case 7, 8:
 			return c20Num(int64(rapid.IntRange(-1, 2).Draw(t, "iSmall")))
 		default:
 			return c20Num(int64(rapid.IntRange(0, 100).Draw(t, "iPct")))
@@ -714,7 +715,7 @@ func c20GenScalar(t *rapid.T, n *c20Schema, fl *c20Flags) any {
 	case c20KStrPtr:
 		return rapid.SampledFrom(append([]string{""}, c20StrPool...)).Draw(t, "sp")
 	case c20KStrVal:
-		if rapid.IntRange(0, 11).Draw(t, "emptyEnum") == 0 {
+		if rapid.IntRange(0, 11).Draw(t, "emptyEnum") == 11 {
 			fl.emptyEnum = true
 			return ""
 		}
@@ -736,7 +737,7 @@ func c20GenScalar(t *rapid.T, n *c20Schema, fl *c20Flags) any {
 		return m
 	case c20KSlice:
 		n0 := rapid.IntRange(0, 9).Draw(t, "sliceLen")
-		if n0 == 0 {
+		if n0 == 9 {
 			fl.emptyList = true
 			return []any{}
 		}
@@ -756,7 +757,7 @@ func c20GenObject(t *rapid.T, sch []*c20Schema, pct int, fl *c20Flags) map[strin
 	c20Slots(sch, nil, &slots)
 	m := map[string]any{}
 	for _, sl := range slots {
-		if rapid.IntRange(0, 99).Draw(t, "set") < pct {
+		if rapid.IntRange(0, 99).Draw(t, "set") >= 100-pct {
 			c20Put(m, sl.segs, c20GenScalar(t, sl.sch, fl))
 		}
 	}
@@ -781,11 +782,11 @@ func (s *c20Section) genLayer(t *rapid.T, hot []int, fl *c20Flags) map[string]an
 	m := map[string]any{}
 	if s.list {
 		switch rapid.IntRange(0, 9).Draw(t, "appsKind") {
-		case 0: // the layer does not mention the list
-		case 1:
+		case 0, 1: // the layer does not mention the list
+		case 8:
 			m["applications"] = nil
 			fl.null = true
-		case 2:
+		case 9:
 			m["applications"] = []any{}
 			fl.emptyList = true
 		default:
@@ -800,7 +801,7 @@ func (s *c20Section) genLayer(t *rapid.T, hot []int, fl *c20Flags) map[string]an
 		}
 		return m
 	}
-	mode := rapid.SampledFrom([]string{"none", "hot", "hot", "hot", "hot+", "hot+", "full"}).Draw(t, "layerMode")
+	mode := rapid.SampledFrom([]string{"none", "hot", "hot", "hot", "hot", "hot+", "hot+", "full"}).Draw(t, "layerMode")
 	isHot := map[int]bool{}
 	for _, h := range hot {
 		isHot[h] = true
@@ -809,12 +810,12 @@ func (s *c20Section) genLayer(t *rapid.T, hot []int, fl *c20Flags) map[string]an
 		set := false
 		switch mode {
 		case "hot":
-			set = isHot[i] && rapid.IntRange(0, 9).Draw(t, "hotSet") < 6
+			set = isHot[i] && rapid.IntRange(0, 9).Draw(t, "hotSet") >= 4
 		case "hot+":
 			if isHot[i] {
-				set = rapid.IntRange(0, 9).Draw(t, "hotSet") < 6
+				set = rapid.IntRange(0, 9).Draw(t, "hotSet") >= 4
 			} else {
-				set = rapid.IntRange(0, 99).Draw(t, "coldSet") < 6
+				set = rapid.IntRange(0, 99).Draw(t, "coldSet") >= 94
 			}
 		case "full":
 			set = true
@@ -823,18 +824,18 @@ func (s *c20Section) genLayer(t *rapid.T, hot []int, fl *c20Flags) map[string]an
 			continue
 		}
 		var v any
-		if mode != "full" && rapid.IntRange(0, 24).Draw(t, "null") == 0 {
+		if mode != "full" && rapid.IntRange(0, 24).Draw(t, "null") == 24 {
 			fl.null = true // an explicit null does not set the field
 		} else {
 			v = c20GenScalar(t, sl.sch, fl)
 		}
 		c20Put(m, sl.segs, v)
 	}
-	if rapid.IntRange(0, 9).Draw(t, "unknownKey") == 0 {
+	if rapid.IntRange(0, 9).Draw(t, "unknownKey") == 9 {
 		m["zzUnknownField"] = c20Num(7)
 		fl.unknown = true
 	}
-	if rapid.IntRange(0, 9).Draw(t, "emptyObj") == 0 { // an empty nested object sets nothing
+	if rapid.IntRange(0, 9).Draw(t, "emptyObj") == 9 { // an empty nested object sets nothing
 		for _, n := range s.sch {
 			if n.kind == c20KObj {
 				if _, has := m[n.name]; !has {
@@ -865,13 +866,16 @@ func (s *c20Section) genCfg(t *rapid.T, full bool, hot []int, hints []map[string
 		maxE = 1
 	}
 	n := rapid.IntRange(0, maxE).Draw(t, "entries")
+	if full {
+		n = rapid.SampledFrom([]int{0, 1, 2, 2, 3, 3, 4, 4}).Draw(t, "entriesFull")
+	}
 	cfg.hasEntries = n > 0 || rapid.Bool().Draw(t, "emptyEntriesKey")
 	for i := 0; i < n; i++ {
 		e := c20Entry{}
 		if rapid.Bool().Draw(t, "named") {
 			e.name = fmt.Sprintf("e%d", i)
 		}
-		e.hasSel, e.sel, _ = c20GenSelector(t, hints[rapid.IntRange(0, len(hints)-1).Draw(t, "hintNode")])
+		e.hasSel, e.sel, _ = c20GenSelector(t, hints[rapid.SampledFrom([]int{0, 0, 0, 0, 1, 2}).Draw(t, "hintNode")%len(hints)])
 		e.layer = s.genLayer(t, hot, fl)
 		cfg.entries = append(cfg.entries, e)
 	}
@@ -885,7 +889,8 @@ func (s *c20Section) genCfg(t *rapid.T, full bool, hot []int, hints []map[string
 func (s *c20Section) malformed(t *rapid.T, base *c20SecCfg) (string, string) {
 	valid := s.text(base)
 	variants := []string{"garbage", "empty-string", "truncated", "trailing", "top-array", "top-string", "top-number",
-		"entries-not-array", "selector-not-object", "leaf-type", "leaf-type", "leaf-type", "int-overflow"}
+		"entries-not-array", "selector-not-object", "leaf-type", "leaf-type", "leaf-type", "int-overflow",
+		"byte-mutation", "byte-mutation", "byte-mutation"}
 	if !s.list {
 		variants = append(variants, "cluster-not-object")
 	}
@@ -941,6 +946,25 @@ func (s *c20Section) malformed(t *rapid.T, base *c20SecCfg) (string, string) {
 		return "", v
 	case "truncated":
 		return valid[:len(valid)-1], v
+	case "byte-mutation": // 1-3 random byte edits of a valid text, kept when the result is not JSON at all (encoding/json.Valid)
+		b := []byte(valid)
+		n := rapid.IntRange(1, 3).Draw(t, "edits")
+		for i := 0; i < n && len(b) > 0; i++ {
+			pos := rapid.IntRange(0, len(b)-1).Draw(t, "editPos")
+			ch := rapid.SampledFrom([]byte("{}[]\":,x0 \\")).Draw(t, "editByte")
+			switch rapid.IntRange(0, 2).Draw(t, "editKind") {
+			case 0:
+				b = append(b[:pos:pos], b[pos+1:]...)
+			case 1:
+				b[pos] = ch
+			default:
+				b = append(b[:pos:pos], append([]byte{ch}, b[pos:]...)...)
+			}
+		}
+		if !json.Valid(b) {
+			return string(b), v
+		}
+		return "invalid_content", "garbage"
 	case "trailing":
 		return valid + "x", v
 	case "top-array":
@@ -989,6 +1013,9 @@ type c20Exp struct {
 	val   c20Val
 	src   string      // "default" | "cluster" | "entry"
 	under []c20Leaves // slices only: the list of the next lower layer (element-wise overlay is tolerated)
+	// by-value quantity explicitly written as zero: Go cannot tell it from "not set"; the value of the next lower
+	// layer is tolerated as well
+	zeroAlt *c20Val
 }
 
 type c20NodeView struct {
@@ -996,10 +1023,10 @@ type c20NodeView struct {
 	// list (to empty) or not is not decided by the statement; both readings are tolerated.
 	explicitEmpty bool
 	exp           map[string]c20Exp
-	matching  []int // indexes of entries whose (valid) selector matches, in list order
-	invalid   []int
-	entryLeaf []c20Leaves
-	cluster   c20Leaves
+	matching      []int // indexes of entries whose (valid) selector matches, in list order
+	invalid       []int
+	entryLeaf     []c20Leaves
+	cluster       c20Leaves
 }
 
 func (s *c20Section) expect(cfg *c20SecCfg, labels map[string]string) *c20NodeView {
@@ -1010,9 +1037,16 @@ func (s *c20Section) expect(cfg *c20SecCfg, labels map[string]string) *c20NodeVi
 	lay := func(l c20Leaves, src string) {
 		for p, x := range l {
 			e := c20Exp{val: x, src: src}
-			if x.kind == c20KSlice {
-				if low, ok := v.exp[p]; ok {
+			if low, ok := v.exp[p]; ok {
+				if x.kind == c20KSlice {
 					e.under, _ = low.val.v.([]c20Leaves)
+				}
+				if x.kind == c20KQuantity && c20ScalarEq(c20KQuantity, x.v, "0") {
+					alt := low.val
+					if low.zeroAlt != nil {
+						alt = *low.zeroAlt
+					}
+					e.zeroAlt = &alt
 				}
 			}
 			v.exp[p] = e
@@ -1042,8 +1076,8 @@ func (s *c20Section) expect(cfg *c20SecCfg, labels map[string]string) *c20NodeVi
 	return v
 }
 
-// c20Diff compares the delivered leaves with the expectation; returns the first difference in path order.
-func c20Diff(exp map[string]c20Exp, act c20Leaves) (path string, inherited bool, bad bool) {
+// c20Diff compares the delivered leaves with the expectation; returns the differing paths in path order.
+func c20Diff(exp map[string]c20Exp, act c20Leaves) (bad []string, inherited bool) {
 	seen := map[string]bool{}
 	var paths []string
 	for p := range exp {
@@ -1058,22 +1092,20 @@ func c20Diff(exp map[string]c20Exp, act c20Leaves) (path string, inherited bool,
 	for _, p := range paths {
 		e, hasE := exp[p]
 		a, hasA := act[p]
-		if hasE != hasA {
-			return p, inherited, true
-		}
-		if e.val.kind == c20KSlice {
+		switch {
+		case hasE != hasA:
+			bad = append(bad, p)
+		case e.val.kind == c20KSlice:
 			ok, inh := c20SliceOK(e.val.v.([]c20Leaves), e.under, a)
 			if !ok {
-				return p, inherited, true
+				bad = append(bad, p)
 			}
 			inherited = inherited || inh
-			continue
-		}
-		if !c20ValEq(e.val, a) {
-			return p, inherited, true
+		case !c20ValEq(e.val, a) && !(e.zeroAlt != nil && c20ValEq(*e.zeroAlt, a)):
+			bad = append(bad, p)
 		}
 	}
-	return "", inherited, false
+	return bad, inherited
 }
 
 // where does the delivered value of path p come from? (only used to give the violation a specific signature)
@@ -1113,6 +1145,32 @@ func (v *c20NodeView) origin(s *c20Section, p string, a c20Val, has bool) string
 }
 
 // ---------------------------------------------------------------- driving the real handler / reconciler
+
+// c20Client stands for the manager's cache-backed client: the handler only reads the slo-controller ConfigMap
+// (start-up sync) and lists the nodes (enqueue after a change). Building controller-runtime's fake client for every
+// case costs more than the rest of the case.
+type c20Client struct {
+	client.Client
+	cm    *corev1.ConfigMap
+	nodes []*corev1.Node
+}
+
+func (c *c20Client) Get(_ context.Context, key client.ObjectKey, obj client.Object, _ ...client.GetOption) error {
+	if out, ok := obj.(*corev1.ConfigMap); ok && c.cm != nil && key.Name == c.cm.Name && key.Namespace == c.cm.Namespace {
+		c.cm.DeepCopyInto(out)
+		return nil
+	}
+	return apierrors.NewNotFound(schema.GroupResource{Resource: "configmaps"}, key.Name)
+}
+
+func (c *c20Client) List(_ context.Context, list client.ObjectList, _ ...client.ListOption) error {
+	if nl, ok := list.(*corev1.NodeList); ok {
+		for _, n := range c.nodes {
+			nl.Items = append(nl.Items, *n.DeepCopy())
+		}
+	}
+	return nil
+}
 
 type c20Queue struct {
 	workqueue.TypedRateLimitingInterface[reconcile.Request]
@@ -1185,7 +1243,7 @@ func c20Run(t *testing.T, focusID string) {
 			if s.list {
 				continue
 			}
-			n := rapid.IntRange(1, 5).Draw(t, "hotN_"+s.id)
+			n := rapid.IntRange(2, 5).Draw(t, "hotN_"+s.id)
 			for i := 0; i < n; i++ {
 				hot[s.id] = append(hot[s.id], rapid.IntRange(0, len(s.slots)-1).Draw(t, "hot_"+s.id))
 			}
@@ -1202,16 +1260,12 @@ func c20Run(t *testing.T, focusID string) {
 		}
 		oldSpecs := make([]*slov1alpha1.NodeSLOSpec, len(nodes))
 
-		var fakeClient client.Client
 		var handler *SLOCfgHandlerForConfigMapEvent
 		var reconciler *NodeSLOReconciler
-		build := func(objs ...client.Object) {
-			for _, n := range nodes {
-				objs = append(objs, n.DeepCopy())
-			}
-			fakeClient = fake.NewClientBuilder().WithScheme(scheme.Scheme).WithObjects(objs...).Build()
-			handler = NewSLOCfgHandlerForConfigMapEvent(fakeClient, DefaultSLOCfg(), &record.FakeRecorder{})
-			reconciler = &NodeSLOReconciler{Client: fakeClient, sloCfgCache: handler, Scheme: scheme.Scheme, Recorder: &record.FakeRecorder{}}
+		build := func(cached *corev1.ConfigMap) { // as SetupWithManager does
+			cl := &c20Client{cm: cached, nodes: nodes}
+			handler = NewSLOCfgHandlerForConfigMapEvent(cl, DefaultSLOCfg(), &record.FakeRecorder{})
+			reconciler = &NodeSLOReconciler{Client: cl, sloCfgCache: handler, Scheme: scheme.Scheme, Recorder: &record.FakeRecorder{}}
 		}
 		q := &c20Queue{}
 		ctx := context.Background()
@@ -1227,7 +1281,7 @@ func c20Run(t *testing.T, focusID string) {
 				kind = rapid.SampledFrom([]string{"create", "create", "create", "create", "startup-with-cm", "startup-no-cm"}).Draw(t, "firstEvent")
 			} else if lastCM == nil {
 				kind = "create"
-			} else if rapid.IntRange(0, 9).Draw(t, "delete") == 0 {
+			} else if rapid.IntRange(0, 9).Draw(t, "delete") == 9 {
 				kind = "delete"
 			}
 			c.Class("event:" + kind)
@@ -1262,9 +1316,12 @@ func c20Run(t *testing.T, focusID string) {
 					old := state[s.id]
 					var modes []string
 					if full {
-						modes = []string{"valid", "valid", "valid", "valid", "valid", "valid", "malformed", "malformed", "absent", "empty", "same"}
+						modes = []string{"absent", "valid", "valid", "valid", "valid", "valid", "valid", "malformed", "malformed", "empty", "same"}
 					} else {
-						modes = []string{"valid", "valid", "malformed", "absent", "absent", "same"}
+						modes = []string{"absent", "absent", "valid", "valid", "malformed", "same"}
+					}
+					if full && old.present && !old.malformed {
+						modes = append(modes, "malformed", "malformed")
 					}
 					mode := rapid.SampledFrom(modes).Draw(t, "mode_"+s.id)
 					if mode == "same" && !old.present {
@@ -1282,7 +1339,11 @@ func c20Run(t *testing.T, focusID string) {
 						st.cfg = &c20SecCfg{}
 					case "valid":
 						st.present = true
-						st.cfg = s.genCfg(t, full, hot[s.id], nodeLabels, &fl)
+						flags := &c20Flags{}
+						if full {
+							flags = &fl
+						}
+						st.cfg = s.genCfg(t, full, hot[s.id], nodeLabels, flags)
 						st.text = s.text(st.cfg)
 					case "malformed":
 						st.present, st.malformed = true, true
@@ -1312,13 +1373,13 @@ func c20Run(t *testing.T, focusID string) {
 			// ---- deliver it
 			switch kind {
 			case "startup-no-cm": // first reconcile before any event, no ConfigMap in the informer cache
-				build()
+				build(nil)
 			case "startup-with-cm": // first reconcile before any event, ConfigMap already in the informer cache
 				lastCM = c20ConfigMap(data, ev+1)
 				build(lastCM.DeepCopy())
 			case "create":
 				if handler == nil {
-					build()
+					build(nil)
 				}
 				lastCM = c20ConfigMap(data, ev+1)
 				handler.Create(ctx, event.TypedCreateEvent[client.Object]{Object: lastCM.DeepCopy()}, q)
@@ -1358,9 +1419,7 @@ func c20Run(t *testing.T, focusID string) {
 						if c20LeavesEq(act, prev[i]) {
 							sig += ":kept-previous"
 						}
-						if c.Violation(t, sig, "section absent, expected the built-in default %s; %s", c20LeavesStr(focus.defaults), where()) {
-							return
-						}
+						c.Violation(t, sig, "section absent, expected the built-in default %s; %s", c20LeavesStr(focus.defaults), where())
 					}
 				case st.malformed: // cannot be parsed: what was effective before stays
 					if !c20LeavesEq(prev[i], focus.defaults) {
@@ -1371,18 +1430,16 @@ func c20Run(t *testing.T, focusID string) {
 						if c20LeavesEq(act, focus.defaults) {
 							sig += ":reset-to-default"
 						}
-						if c.Violation(t, sig, "section text cannot be parsed, expected the previously effective %s; %s", c20LeavesStr(prev[i]), where()) {
-							return
-						}
+						c.Violation(t, sig, "section text cannot be parsed, expected the previously effective %s; %s", c20LeavesStr(prev[i]), where())
 					}
 				default:
 					view := focus.expect(st.cfg, nodeLabels[i])
-					p, inherited, bad := c20Diff(view.exp, act)
-					if bad && view.explicitEmpty && len(act) == 0 {
-						bad = false
+					bad, inherited := c20Diff(view.exp, act)
+					if len(bad) > 0 && view.explicitEmpty && len(act) == 0 {
+						bad = nil
 						c.Class("explicit-empty-list-in-entry(read as set-to-empty, tolerated)")
 					}
-					if bad {
+					for _, p := range bad {
 						e, hasE := view.exp[p]
 						a, hasA := act[p]
 						kindName, want := "", "none"
@@ -1395,10 +1452,10 @@ func c20Run(t *testing.T, focusID string) {
 							kindName = "list"
 						}
 						sig := fmt.Sprintf("layer:%s:%s:want-%s:got-%s", focus.id, kindName, want, view.origin(focus, p, a, hasA))
-						if c.Violation(t, sig, "path %s: expected %s (from %s), delivered %s; matching entries %v, entries with invalid selector %v; %s",
-							p, c20ValStr(e.val, hasE), want, c20ValStr(a, hasA), view.matching, view.invalid, where()) {
-							return
-						}
+						// a known (recorded) finding is counted by vk; the remaining paths and events are still judged,
+						// because everything later is compared with what the real code delivered
+						c.Violation(t, sig, "path %s: expected %s (from %s), delivered %s; matching entries %v, entries with invalid selector %v; %s",
+							p, c20ValStr(e.val, hasE), want, c20ValStr(a, hasA), view.matching, view.invalid, where())
 					}
 					c.ClassIf(inherited, "list-overlaid-elementwise(tolerated)")
 					// classes
